@@ -28,7 +28,7 @@ TABLE = {
     "C02": (
         "property-based differential testing against an independent mpmath evaluation of the documented equation",
         "Every registered element class x generated in-limit parameter vectors x frequencies, whole circuits and all 36 Tlm sub-circuit configurations: numeric impedance vs our own 40-digit mpmath evaluation of the class's documented equation string and of to_sympy(); reported 0 Hz / inf limits vs mpmath evaluation at f=1e-/+20000 (only where the reference itself has converged).",
-        "Trusts sympy's parser for the equation strings and mpmath's elementary functions; tolerance rel 1e-9 plus a backward-error allowance (64 ulp of every input). For Tlm sub-circuit configurations the numeric and the symbolic path are compared with each other only.",
+        "Trusts sympy's parser for the equation strings and mpmath's elementary functions; tolerance rel 1e-9 plus a backward-error allowance (64 ulp of every input). For Tlm sub-circuit configurations the numeric and the symbolic path are compared with each other only. Known finding F40a/b: the Tlmb*/Tlmn* elements lose digits (1e-4) when their characteristic frequency leaves 1e+-230.",
     ),
     "C03": (
         "round-trip and generator-as-oracle property-based testing with a grammar-directed CDC printer",
